@@ -569,13 +569,17 @@ fn main() {
     // never, every `k`-th tick, or only once after `k` ticks.
     if run.num_violations() == 0 {
         let mut long_total = 0u64;
-        let cfg = Cfg { worlds: vec![1, 2, 6, 7], ticks: 255, drops: 0, dups: 0, acks: 255, cap: 8, send_empty: false };
+        let cfg = Cfg { worlds: vec![1, 2, 6, 7, 8], ticks: 255, drops: 0, dups: 0, acks: 255, cap: 8, send_empty: false };
         let label = cfg.label();
         let m = M { cfg, run: run.clone(), worlds: worlds(), stats: Arc::new(Stats::default()), samples: Arc::new(Mutex::new(Vec::new())) };
         let lens: &[usize] = if run.tier == Tier::Thorough { &[99, 100, 101, 102, 103, 130, 201, 205, 250] } else { &[101, 103, 205] };
+        // two world sequences: one with different checksums (a wrong delta base shows as an error,
+        // which is allowed) and one over the three equal-checksum worlds (a wrong delta base is
+        // accepted silently unless the tick bookkeeping on both sides is right)
         'outer: for &n in lens {
             for ack_every in [0usize, 1, 7, 50, 100, 101] {
-                for once in [false, true] {
+                for once_and_worlds in 0..4 {
+                    let (once, equal_crc) = (once_and_worlds & 1 == 1, once_and_worlds & 2 == 2);
                     if once && ack_every < 2 {
                         continue;
                     }
@@ -584,7 +588,7 @@ fn main() {
                     s.acks_left = 255;
                     let mut script: Vec<Act> = Vec::new();
                     for i in 0..n {
-                        script.push(Act::Send([1u8, 2, 6, 7][(i * 7 + i / 3) % 4]));
+                        script.push(Act::Send(if equal_crc { [6u8, 7, 8][(i + i / 5) % 3] } else { [1u8, 2, 6, 7][(i * 7 + i / 3) % 4] }));
                         // all parts of this tick, in order
                         script.push(Act::DeliverMsg(255));
                         let ack_now = ack_every != 0 && if once { i + 1 == ack_every } else { (i + 1) % ack_every == 0 };
